@@ -134,6 +134,24 @@ func (n *Nodis) Get(key string) []byte {
 	return v
 }
 
+// MGet returns the values of the keys; a key that is missing or does not hold a string yields nil
+func (n *Nodis) MGet(keys ...string) [][]byte {
+	values := make([][]byte, len(keys))
+	for i, key := range keys {
+		_ = n.exec(func(tx *Tx) error {
+			meta := tx.readKey(key)
+			if !meta.isOk() {
+				return nil
+			}
+			if s, ok := meta.value.(*str.String); ok {
+				values[i] = s.Get()
+			}
+			return nil
+		})
+	}
+	return values
+}
+
 // Incr increment the integer value of a key by one
 func (n *Nodis) Incr(key string) (int64, error) {
 	var v int64
